@@ -85,7 +85,7 @@ Definition poison (t : term) : term :=
   mkTerm ck cu bt an fo sg al pa sy un th ib ss ot ka ki cs po ap pe li ho true.
 
 (* ---------- SGR ---------- *)
-(* CSI m / CSI 0 m restore the default rendition.  Parameters that only switch one attribute
+(* CSI m / CSI 0 m restore the default rendition.  SGR arguments that only switch one attribute
    back off (22..29, 39, 49, 59) never leave the default rendition; anything else does.  This is
    conservative: after "1 then 22" the flag stays false until the next full reset. *)
 Definition sgr_is_reset (ps : list (list Z)) : bool :=
